@@ -25,6 +25,7 @@ type c17Params struct {
 	Capacity int        `json:"capacity"` // -1: nil cacher
 	Preload  int        `json:"preload"`  // nodes inserted (and released) before the window
 	PreKeys  []int      `json:"prekeys"`  // keys Get+Released before the window (resident in LRU)
+	PreHold  []int      `json:"prehold"`  // keys whose handle is taken before the window and shared by the clients ("rels:i")
 	Clients  [][]string `json:"clients"`
 	QB, TB   int
 	// Stmt: scheduling points before every statement of package cache (the binary is built
@@ -137,6 +138,19 @@ func c17Exec(p *c17Params, prefix []int) *explore.Exec {
 		for _, k := range p.PreKeys {
 			w.get("pre", uint64(k), nil)
 		}
+		var shared []*cache.Handle
+		var sharedVal []*cval // the value behind each shared handle (the handle forgets it once released)
+		var sharedReleased []bool
+		for _, k := range p.PreHold {
+			var hs []*cache.Handle
+			w.get("pre", uint64(k), &hs)
+			for _, h := range hs {
+				v, _ := h.Value().(*cval)
+				shared = append(shared, h)
+				sharedVal = append(sharedVal, v)
+				sharedReleased = append(sharedReleased, false)
+			}
+		}
 		var wg vsync.WaitGroup
 		held := make([][]*cache.Handle, len(p.Clients))
 		vsched.Arm()
@@ -184,6 +198,17 @@ func c17Exec(p *c17Params, prefix []int) *explore.Exec {
 							}
 							w.deleted = append(w.deleted, key)
 						}
+					case "rels":
+						// several goroutines release the SAME handle ("safe to call release multiple
+						// times"): it gives up exactly one reference
+						h := shared[arg]
+						if !sharedReleased[arg] {
+							sharedReleased[arg] = true
+							if v := sharedVal[arg]; v != nil {
+								w.out[v]--
+							}
+						}
+						h.Release()
 					case "evict":
 						w.c.Evict(0, uint64(arg))
 					case "evictns":
@@ -220,6 +245,14 @@ func c17Exec(p *c17Params, prefix []int) *explore.Exec {
 			}
 		}
 		// a deleted entry is gone once its handles are released: not retained, not handed out again
+		for i, h := range shared {
+			if !sharedReleased[i] {
+				if v := sharedVal[i]; v != nil {
+					w.out[v]--
+				}
+				h.Release()
+			}
+		}
 		// release held handles, then close: everything constructed must be finalised exactly once
 		for _, hs := range held {
 			for _, h := range hs {
@@ -286,6 +319,9 @@ func c17Drivers() []c17Params {
 		{Name: "nil-cacher", Capacity: -1, Clients: [][]string{{"get:1", "get:1"}, {"get:1"}, {"del:1"}}, QB: 3, TB: 5},
 		{Name: "close-vs-get", Capacity: 1, PreKeys: []int{1}, Clients: [][]string{{"get:2"}, {"close"}}, QB: 3, TB: 5},
 		{Name: "forceclose-vs-hold", Capacity: 1, PreKeys: []int{1}, Clients: [][]string{{"hold:1", "get:2"}, {"closef"}}, QB: 3, TB: 5},
+		// two goroutines release one and the same handle while a third client holds another one
+		{Name: "shared-handle-release", Capacity: 1, PreHold: []int{1}, Clients: [][]string{{"rels:0"}, {"rels:0"}, {"hold:1", "get:2"}}, QB: 3, TB: 5},
+		{Name: "shared-handle-release-nil-cacher", Capacity: -1, PreHold: []int{1}, Clients: [][]string{{"rels:0"}, {"rels:0", "get:1"}, {"hold:1"}}, QB: 3, TB: 5},
 		{Name: "grow-vs-ops", Capacity: 600, Preload: 511, Clients: [][]string{{"get:1"}, {"get:2", "del:1000"}, {"get:1"}}, QB: 2, TB: 3},
 		// Delete of a pinned entry while the map is being resized by the other clients' insertions
 		{Name: "grow-vs-delete-held", Capacity: 600, Preload: 511, Clients: [][]string{{"hold:1000", "del:1000"}, {"get:1"}, {"get:2"}}, QB: 2, TB: 3},
